@@ -147,4 +147,17 @@ example :
     p.fin.highest = 1 ∧
       p.recover = [.standstill 2 [⟨.ff, 1, 7, [0, 1, 2, 3], [], 4⟩] [⟨.skip, 2, 0, 0⟩]] := by decide
 
+/-! **D17 (known finding), witness.** The last clause of the statement — "a node that starts from an empty state
+and receives only this bundle reaches the same highest finalized slot" — is *false* of the code and of the
+model once the sender's finalized slot is `≥ 2·SLOTS_PER_EPOCH` past genesis: the receiver's admission window
+refuses every bundled certificate. Sender: two fast-finalization certificates, each inside the window of its
+time; receiver: the empty pool fed the bundle. (The replay oracle of the harness decides the clause on the
+implementation for all generated histories; this is the excluded point, run there as corpus case d17.) -/
+theorem bundle_replay_far_witness :
+    let e : Epoch := { stakes := [1, 1, 1], own := 0 }
+    let sender := (poolRun { epoch := e } [.cert ⟨.ff, 35999, 1, [0, 1, 2], [], 3⟩, .cert ⟨.ff, 40000, 2, [0, 1, 2], [], 3⟩]).1
+    sender.fin.highest = 40000 ∧
+      sender.recover = [.standstill 40001 [⟨.ff, 40000, 2, [0, 1, 2], [], 3⟩] []] ∧
+      (poolRun { epoch := e } [.cert ⟨.ff, 40000, 2, [0, 1, 2], [], 3⟩]).1.fin.highest = 0 := by decide
+
 end AgModel.Pool
